@@ -9,12 +9,8 @@ import Aergo.Props.C06
 #print axioms Aergo.Props.C06.swap_prefix_mid
 #print axioms Aergo.Props.C06.reorg_crash_recover
 #print axioms Aergo.Props.C06.reorg_best_allowed
-#print axioms Aergo.Props.C06.reorg_replay_converges
+#print axioms Aergo.Props.C06.reorg_replay_converges_partial
 #print axioms Aergo.Props.C06.reorg_eq
 #print axioms Aergo.Props.C06.feed_reorg
 #print axioms Aergo.Props.C06.arrival_crash_recover
 #print axioms Aergo.Props.C06.crash_during_recovery
-#print axioms Aergo.Props.C06.Ex.invG
-#print axioms Aergo.Props.C06.Ex.invA
-#print axioms Aergo.Props.C06.Ex.invD
-#print axioms Aergo.Props.C06.Ex.fork
